@@ -100,6 +100,9 @@ class FieldArrayModel(FieldCompositeModel):
         self.sum_expr = None
         self.sum_expr_btor = None
         
+        self.trim_to_size()
+        
+    def trim_to_size(self):
         if self.is_rand_sz and self.is_scalar:
             # A random-size scalar list is extended to its maximum size
             # before the solve. Drop the elements beyond the solved size,
